@@ -92,6 +92,8 @@ func runC16(c *Check, rng *rand.Rand) {
 		}(l)
 	}
 	wg.Wait()
+	// a timed-out request whose node is lost later, while other requests are in flight
+	c15compound(c, rng, c16T)
 	c.MinEvals = 20
 }
 
